@@ -11,7 +11,7 @@ Sibling cross-check of the assignment tracker (compiler/meta.rs) against the cod
     result under `!is_assigned(name)` and the result of find_undeclared derives from that set.
 Not decided: the implicit names (loop, self, super, caller) the tracker pre-assigns.
 """
-from .. import cfg, flow, events, arms
+from .. import cfg, flow, events, arms, errflow
 from ..facts import norm_path
 
 G = "minijinja::compiler::codegen::CodeGenerator::"
@@ -125,6 +125,31 @@ def run(ctx):
                "reporting a variable additionally depends on %s" % other_guards, tv.loc)
         fu = prog.fn(M + "find_undeclared")
         ctx.ob("C18.W3.result-comes-from-the-tracker", tag + fu.path, bool(fu.calls_to(M + "track_walk")), "", fu.loc)
+        # W4: the public entry points report what the walker found - on every path.  A return that does not pass
+        # the walker (an "obviously empty" fast path decided from something else than the AST, e.g. the root
+        # instruction stream, which does not contain block bodies) omits variables.
+        FU = M + "find_undeclared"
+        n4 = 0
+        for f in prog.fns.values():
+            if f.crate != "minijinja" or f.path == FU or not f.calls_to(FU):
+                continue
+            n4 += 1
+            walkers = {c.bb for c in f.calls_to(FU)}
+            # the only other way out: the source fails to parse (cannot happen for a compiled template)
+            for c in f.calls():
+                if c.name.endswith("compiler::parser::parse") or c.name.endswith("::parse_expr"):
+                    sp = errflow.ok_err_blocks(f, c)
+                    if sp:
+                        walkers |= set(sp[1])
+            ok4 = cfg.paths_must_pass(f, 0, walkers, f.returns())
+            ctx.ob("C18.W4.entry-point-reports-the-walk", tag + f.path, ok4,
+                   "a path through %s returns a set that does not come from find_undeclared (and is not the parse-error "
+                   "exit): variables read on that path's templates are omitted" % f.path.split("::")[-1], f.loc)
+            # and the walker's result is what is returned (not filtered afterwards)
+            for c in f.calls_to(FU):
+                ctx.ob("C18.W4.walk-result-is-returned-unfiltered", tag + f.path, c.dest == {"l": 0},
+                       "the set computed by find_undeclared is post-processed before it is returned", f.where(c.bb))
+        ctx.floor("C18.W4 public entry points of the walker" + tag, n4, 1)
         ia = prog.fn(M + "AssignmentTracker::is_assigned")
         ctx.ob("C18.W3.is_assigned-consults-scopes", tag + ia.path,
                any(c.name.endswith("::any") or c.name.endswith("::contains") for c in ia.calls() + [k for cl in prog.closures_of(ia.path) for k in cl.calls()]),
